@@ -94,6 +94,8 @@ func frameMatch(name, entry string) bool {
 		return strings.HasPrefix(name, "MH$") || strings.HasPrefix(name, "MV$")
 	case "ptrs":
 		return strings.HasPrefix(name, "P$")
+	case "*":
+		return true
 	}
 	tn, fn, ok := strings.Cut(entry, ".")
 	if !ok {
